@@ -173,9 +173,7 @@ def build_mda(case, system):
     else:
         mda = cls[cfg["cls"]](discs, **common, **cfg["settings"])
     if cfg.get("scaling"):
-        mda.scaling = mda.ResidualScaling(cfg["scaling"])
-        if cfg["cls"] not in ("MDAChain", "MDASequential", "MDAGSNewton"):
-            pass
+        mda.scaling = mda.ResidualScaling(cfg["scaling"])  # composed MDAs cascade it to their solvers
     if cfg.get("matrix_type"):
         jt = JacobianAssembly.JacobianType(cfg["matrix_type"])
         for leaf in leaves(mda):
